@@ -32,6 +32,9 @@ CHECKS = {
     "C10": ("who-may-write over the cancel map (receivers resolved through Arc/Mutex guards by type) + provenance of stored key/value and of Server::cancel's arguments + must-pass-through (release before idle loop / guard drop)",
             "All-sites/all-paths structural decision over lib+bin MIR: the client->server map is inserted into only by Server::claim (key = the claiming client's pid/key parameters, value = that server's own pid, key, host, port), removed from only by Client::release and Drop (with the client's own key), looked up only by the cancel branch of handle; handle claims with self.process_id/secret_key which come from rand::random at startup and are never reassigned; every path from claim back to the idle loop passes release(), which precedes the drop of the pooled connection; Server::cancel has one caller, reached only over the Some edge of the lookup, with all four arguments from the looked-up tuple; the miss arm contacts nothing.",
             "The window between an error return of handle and the Drop of the Client is a schedule property and is not decided. " + TRUST, "DESIGN.md §4 C10"),
+    "C08": ("sibling cross-check of wire decoders/encoders (linearised field-kind sequences over MIR call order and loops) + field coverage/unambiguity of the cache key + must-pass-through ordering in the Sync arm + who-may-write on the name map",
+            "All-sites/all-paths structural decision over the type-checked MIR: Parse/Bind/Describe/Close are decoded and encoded with identical wire-field sequences (loops included) and Bind::rename copies the remainder of the original verbatim with length adjusted by the name lengths; the pool cache key reads query and param_types, not the name, each fed to the hasher separately (or formatted with literal separators); in the Sync arm a Bind/Describe naming a cached statement is appended only after ensure_prepared_statement_is_on_server()==Ok and a cached Parse is forwarded only on has_prepared_statement()==false after registration, else ParseComplete is synthesised; Client.prepared_statements is inserted into only by buffer_parse under the client's own name and otherwise only read/removed; an eviction builds Close(evicted), appends it to the buffer that is sent, before Ok; ErrorResponse un-caches the failed statement; rewrite/rename assign only the name.",
+            "Multi-connection histories (LRU order, which server a transaction lands on) and hash collisions of distinct encodings are not decided. " + TRUST, "DESIGN.md §4 C08"),
 }
 
 NOT_APPLICABLE = {}
